@@ -27,6 +27,7 @@ EXPLANATION = (
     "(set_ae/set_uid/decode_bytes) is not decided."
     ' Second session: a lossy hand-over (_wrap_uid_bytes strips a trailing NUL) is accepted only for fields whose setter goes through set_uid; no value-level default (`x or y`, if-else expression) or guard other than item-kind dispatch / `is None` may stand between a primitive parameter and its PDU field; every item loop of the codec hands on each item it frames.'
     ' Fourth session: the item generators are evaluated on byte strings of 0..3 items built from the PS3.8 layouts (every item comes out once, in order); no member of a PDU / item / primitive class may be memoised.'
+    ' Fifth round: (wire-unsigned) every struct format of the PDU codec is unsigned; (zero-legal) the optional fields PS3.8 allows to be empty (service-class application information, implementation version, extended-negotiation payloads) are not rejected or dropped for length 0; the item generators are also evaluated on malformed streams, which must raise; no decoded member is memoised on the PDU object (derived-live).'
 )
 
 
